@@ -555,7 +555,7 @@ def run(c):
               "sema.h 1 w1", "sema.h 1 t1,w,c0,w,w,r1"]
     sizes = [0, 1, 2, 3]
     if c.thorough:
-        nrand, nlong = 150000, 20000
+        nrand, nlong = 100000, 10000
     else:
         nrand, nlong = 20000, 2000
     for i in range(nrand):
@@ -573,10 +573,10 @@ def run(c):
     process("random", lines, "4")
     if c.thorough:
         plan = [("exh-full4", lambda: exhaustive(sizes, 4, FULL, 4)), ("exh-neg2", lambda: exhaustive(sizes, 2, FULL + NEG, 2)),
-                ("exh-mid5", lambda: exhaustive([1, 2], 5, MID, 3)), ("exh-core6", lambda: exhaustive([1, 2, 3], 6, CORE, 3)),
-                ("exh-we5", lambda: exhaustive([0, 1, 2], 5, WMID, 3)),
+                ("exh-mid5", lambda: exhaustive([2], 5, MID, 3)), ("exh-core6", lambda: exhaustive([1, 2], 6, CORE, 3)),
+                ("exh-we5", lambda: exhaustive([1, 2], 5, WMID, 3)),
                 ("cover7", lambda: transition_cover(sizes, 7, FULL + NEG))]
-        desc = "[(full 25 ops w<=3, L=4, sizes 0..3), (mid 14 ops, L=5, sizes 1..2), (core 8 ops, L=6, sizes 1..3), (12 ops incl. WaitEmpty, L=5, sizes 0..2)]; transition cover depth 7"
+        desc = "[(full 25 ops w<=3, L=4, sizes 0..3), (mid 14 ops, L=5, size 2), (core 8 ops, L=6, sizes 1..2), (12 ops incl. WaitEmpty, L=5, sizes 1..2)]; transition cover depth 7"
     else:
         plan = [("exh-full3", lambda: exhaustive(sizes, 3, FULL, 3)), ("exh-neg2", lambda: exhaustive(sizes, 2, FULL + NEG, 2)),
                 ("exh-mid4", lambda: exhaustive([1, 2], 4, MID, 3)), ("exh-core5", lambda: exhaustive([1, 2], 5, CORE, 3)),
